@@ -23,6 +23,7 @@ clause → theorem
 * blocking and async readers are the same function ............. `C02.reader_twins_agree`
 * the checks the model performs are the checks in the source .... `C02.parser_checks`, `C02.reader_shapes`
 * one-message-per-buffer entry points use the exact parsers ..... `C02.entry_points_exact`
+* a failed / timed-out frame read ends the connection ........... `C02.read_loops_never_resume`, `C02.client_read_loop_never_resumes` (why: `C02.resume_inside_frame_accepts_embedded`)
 
 `Outcome` has explicit `panic` and `abort` constructors (integer overflow with overflow-checks on,
 slice index out of range, `vec![0; n]` capacity overflow, allocation failure), so "never crashes" is
@@ -194,6 +195,37 @@ theorem read_pipelined (mode : OvMode) (ms : List Message) (tail : Bytes)
   refine readSeq_frames _ ms tail fun m hm rest => ?_
   rw [readMessage_complete _ mode m (hms m hm).1 rest (hms m hm).2.1 (hms m hm).2.2]
   rfl
+
+/-! ### second coverage-audit pass: the readers are not resumable -/
+
+/-- Why a connection must end after a failed or timed-out frame read: the readers start at the current stream position,
+and a position inside a frame may well be the first byte of bytes that form a consistent frame of their own. Whatever
+precedes it (`pre`: the part of the outer frame already consumed) and whatever follows, the four readers return the
+embedded frame. So "only whole frames of the stream are ever parsed" holds only for reads that start at frame
+boundaries (`read_pipelined`), and the read loops must never read again after an error. -/
+theorem resume_inside_frame_accepts_embedded (mode : OvMode) (pre tail : Bytes) (e : Message) (wf : e.WF)
+    (hsz : 48 + e.query.length + e.body.length < 2^62) :
+    readMessageInto Gen.headerSumForm Gen.readIntoSumForm Gen.readIntoAlloc mode
+      ((pre ++ (e.toVec ++ tail)).drop pre.length) = .ok e.toVec ∧
+    readMessage Gen.headerSumForm Gen.readAlloc mode ((pre ++ (e.toVec ++ tail)).drop pre.length) = .ok e := by
+  rw [List.drop_left' rfl]
+  exact ⟨(read_into_complete mode e wf tail hsz).1, read_complete mode e wf tail (by omega) (by omega)⟩
+
+/-- non-vacuity: a consistent embedded frame exists (id 99, query `/s`) -/
+example : (Message.mk ⟨50, 0x1507, 1, 0, 0, 99, 2, 0, 1, 2, 0⟩ [47, 115] []).WF := by
+  refine ⟨⟨?_,?_,?_,?_,?_,?_,?_,?_,?_,?_,?_⟩, ?_, ?_, ?_, ?_⟩ <;> decide
+
+/-- The read loops of the blocking and the async TCP server, as re-read from the source on every run: every error of the
+frame read (a read timeout — `WouldBlock`/`TimedOut` — included) leaves the loop (`break` on a clean end of stream,
+`return` otherwise; the async server's `timeout(..)` arm returns). A loop that `continue`s after an error, or any other
+arm, is extracted as `false`. -/
+theorem read_loops_never_resume : Gen.serverReadArms = true ∧ Gen.asyncReadTimeoutCloses = true := by decide
+
+/-- The same for the blocking `Client`'s response loop: every error of `read_message` fails the pending calls and leaves
+the loop. (At /repo 7face75 this is FALSE: an `Interrupted` error `continue`s, and `read_message` can return it after
+having consumed part of a frame — finding F11, `fixes/F11-client-eintr-resync.diff`; the harness re-finds it with a real
+signal as `parse.net.client.resync_inside_frame_after_eintr`.) -/
+theorem client_read_loop_never_resumes : Gen.clientReadLoopEnds = true := by decide
 
 /-! ### Why the checked / fallible forms are needed: witnesses for the unchecked forms
 (these are the inputs F1 and F2 of DESIGN.md §9). -/
